@@ -18,6 +18,18 @@ import (
 type fileSpec struct {
 	N      int    `json:"n"`
 	TxMode string `json:"txmode,omitempty"`
+	Ck     bool   `json:"checkpoint,omitempty"`
+}
+
+// startOf: a first run on an empty database starts at the latest checkpoint file (or the first file).
+func startOf(shape []fileSpec) int {
+	st := 0
+	for f, fs := range shape {
+		if fs.Ck {
+			st = f
+		}
+	}
+	return st
 }
 
 type Case struct {
@@ -51,12 +63,18 @@ func filesLvl(c Case, lvl int) map[string]string {
 	out := map[string]string{}
 	for f, fs := range c.Shape {
 		var b strings.Builder
+		if fs.Ck {
+			b.WriteString("-- atlas:checkpoint\n")
+		}
 		if fs.TxMode != "" {
-			b.WriteString("-- atlas:txmode " + fs.TxMode + "\n\n")
+			b.WriteString("-- atlas:txmode " + fs.TxMode + "\n")
+		}
+		if fs.Ck || fs.TxMode != "" {
+			b.WriteString("\n")
 		}
 		for i := 0; i < fs.N; i++ {
 			switch {
-			case f == 0 && i == 0:
+			case f == startOf(c.Shape) && i == 0:
 				b.WriteString("CREATE TABLE journal (sid integer NOT NULL);\n")
 			case f == c.FailF && i == c.FailK && !repaired:
 				b.WriteString(failing + ";\n")
@@ -103,9 +121,10 @@ func (m model) String() string {
 func expect(c Case) (model, bool) {
 	m := model{sids: map[int]int{}, revs: map[string]string{}}
 	failed := false
+	st := startOf(c.Shape)
 	limit := len(c.Shape)
-	if c.Count > 0 && c.Count < limit {
-		limit = c.Count
+	if c.Count > 0 && st+c.Count < limit {
+		limit = st + c.Count
 	}
 	type undo struct {
 		table bool
@@ -123,7 +142,7 @@ func expect(c Case) (model, bool) {
 		return u
 	}
 	start := snap()
-	for f := 0; f < limit && !failed; f++ {
+	for f := st; f < limit && !failed; f++ {
 		fs := c.Shape[f]
 		before := snap()
 		mode := modeOf(c.Mode, fs)
@@ -140,7 +159,7 @@ func expect(c Case) (model, bool) {
 				}
 				break
 			}
-			if f == 0 && i == 0 {
+			if f == st && i == 0 {
 				m.table = true
 			} else {
 				m.sids[sid(f, i)]++
@@ -631,6 +650,21 @@ func cases(tier string) []Case {
 			}
 		}
 	}
+	// checkpoint directories: files precede the checkpoint a first run starts from; the failure is inside
+	// the checkpoint or in a file after it.
+	for _, sh := range [][]fileSpec{{{N: 1}, {N: 2}, {N: 3, Ck: true}, {N: 2}}, {{N: 2}, {N: 2, Ck: true}}} {
+		st := startOf(sh)
+		for f := st; f < len(sh); f++ {
+			for k := 0; k < sh[f].N; k++ {
+				if f == st && k == 0 {
+					continue
+				}
+				for _, mode := range []string{"file", "all", "none"} {
+					cs = append(cs, Case{Kind: "migrate_fail", Mode: mode, Shape: sh, FailF: f, FailK: k})
+				}
+			}
+		}
+	}
 	// fail, repair, fail again later in the same file, repair (every pair of positions).
 	for _, sh := range [][]fileSpec{{{N: 3}}, {{N: 4}}, {{N: 1}, {N: 3}}} {
 		f := len(sh) - 1
@@ -690,7 +724,7 @@ func classify(c Case, problems []string) string {
 
 func Run(r *report.Run) {
 	defer clih.Cleanup()
-	r.Rule = "real CLI on real SQLite files: (1) `migrate apply`: directory shapes (1-3 files x 1-3 statements) x a really failing statement at every position x tx-mode {file, all, none} x per-file txmode directive on the failing / preceding file x apply count {all, 1, 2} (plus every pair of failing positions in one file, repaired one after the other): the state after the failure (journal rows written by the statements themselves + revision rows, read by our own connection) must equal what the mode promises, and after repairing the file and re-running the full dump must equal that of a run that never failed; (2) `migrate apply --dry-run` from 5 start states (fresh, partially applied, one file applied, fully applied, non-empty without history) x modes x count x {--baseline, --allow-dirty}: dump and directory byte-identical; (3) `schema apply` on populated tables whose plan fails midway on the data, default / file / none tx-mode, and --dry-run; non-trivial = every case; distinct = the case tuple"
+	r.Rule = "real CLI on real SQLite files: (1) `migrate apply`: directory shapes (1-3 files x 1-3 statements, and directories with a checkpoint file preceded by older files) x a really failing statement at every position x tx-mode {file, all, none} x per-file txmode directive on the failing / preceding file x apply count {all, 1, 2} (plus every pair of failing positions in one file, repaired one after the other): the state after the failure (journal rows written by the statements themselves + revision rows, read by our own connection) must equal what the mode promises, and after repairing the file and re-running the full dump must equal that of a run that never failed; (2) `migrate apply --dry-run` from 5 start states (fresh, partially applied, one file applied, fully applied, non-empty without history) x modes x count x {--baseline, --allow-dirty}: dump and directory byte-identical; (3) `schema apply` on populated tables whose plan fails midway on the data, default / file / none tx-mode, and --dry-run; non-trivial = every case; distinct = the case tuple"
 	r.Assumptions = []string{
 		"after a repair the hash / partial_hashes columns of the revision row legitimately differ from a never-failed run and are masked; timestamps are masked",
 		"`--tx-mode all` with per-file txmode directives is rejected by the CLI and not enumerated",
